@@ -126,3 +126,15 @@ class Timer:
 
     def s(self):
         return time.time() - self.t0
+
+
+def settle(prop, inconclusive, total):
+    """Splits the inconclusive notes of a run: solver time-outs ("solver unknown …") are tolerated up to 1 % of the cases (they are printed as UNDECIDED, listed in the evidence and not part of the claim of the run); anything else, or more time-outs than that, makes the run inconclusive (returns True)."""
+    und = [x for x in inconclusive if x.startswith("solver unknown") or x.startswith("solver returned unknown")]
+    hard = [x for x in inconclusive if x not in und]
+    if hard or len(und) > max(1, total // 100):
+        print("INCONCLUSIVE property=%s: %s" % (prop, (hard or und)[0][:300]))
+        return True
+    for u in und:
+        print("UNDECIDED (solver time-out, case not part of the claim of this run): %s" % u[:200])
+    return False
